@@ -149,6 +149,7 @@ def run(chk, prog):
                    '%s can return without apply_any_patch although no background save is active: the look-ahead\'s '
                    'variable / visit-count changes are never merged into the committed state' % name, f.loc(0))
     patch_read_modify_write(chk, prog, tr)
+    patch_consulted_first(chk, prog, tr)
     at_start_is_sticky(chk, prog, tr)
 
 
@@ -410,3 +411,91 @@ def patch_read_modify_write(chk, prog, tr):
                        'second entry of the container in the same look-ahead overwrites the first increment'
                        % (prog.root_fn(fn).short, sorted(a for a in at if a.startswith('field:'))[:3]), fn.loc(bb))
     chk.floor(R5, 'writes of a visit count into the patch', n, 1)
+
+
+OVERLAYS = {
+    'StatePatch::get_turn_index': 'StoryState::turn_indices',
+    'StatePatch::get_visit_count': 'StoryState::visit_counts',
+    'StatePatch::get_global': 'VariablesState::global_variables',
+}
+LOOKUPS = ('get', 'contains_key', 'get_key_value', 'index', 'get_mut')
+
+
+def _key_args(prog, lt, g, op):
+    """Parameters of the named function (other than self) a lookup key derives from, seen through closures."""
+    from analysis.defuse import full_lineage
+    fl = full_lineage(prog, g, op, _lt=lt)
+    at = {a for a in fl if a.startswith('arg:')}
+    if g.parent:
+        at -= {a for a in lt.prov(g, op) if a.startswith('arg:')}
+        root = prog.root_fn(g)
+        for a in fl:
+            if a.startswith('upvar:'):
+                name = a[6:].lstrip('*')
+                for d_ in root.body['dbg']:
+                    if d_['n'] == name and 'p' not in d_['pl']:
+                        at |= {x for x in lt.prov(root, {'k': 'copy', 'pl': {'l': d_['pl']['l']}}) if x.startswith('arg:')}
+    return {a for a in at if a != 'arg:1'}
+
+
+def patch_consulted_first(chk, prog, tr):
+    R7 = 'C01.patch-consulted-before-the-committed-map'
+    chk.rule(R7, 'Wherever one function looks the same key up both in the look-ahead patch (StatePatch::get_turn_index / '
+             'get_visit_count / get_global) and in the committed map the patch overlays (turn_indices / visit_counts / '
+             'global_variables), the patch is asked first: the committed lookup never runs before the patch lookup, and '
+             'the patch lookup is never the lazy fallback (a closure handed to a combinator on the committed result). '
+             'A count or value recorded during the look-ahead that is still running must win over the committed one, or '
+             'TURNS_SINCE / visit counts / globals read inside a look-ahead that is then committed report the state '
+             'before the look-ahead.')
+    lt = Tracer(prog, transparent=lambda cs: True, use_summaries=False)
+    n = 0
+    for root in sorted(prog.fns.values(), key=lambda f: f.p):
+        if root.crate != 'bladeink' or root.parent:
+            continue
+        bodies = prog.with_closures(root)
+        getters, bases = [], []
+        for g in bodies:
+            for bb, t in g.calls():
+                cs = callee_short(t)
+                if cs in OVERLAYS and len(t['args']) >= 2:
+                    getters.append((g, bb, t, cs))
+                elif cs.rsplit('::', 1)[-1] in LOOKUPS and len(t['args']) >= 2:
+                    at0 = lt.prov(g, t['args'][0])
+                    for fld in set(OVERLAYS.values()):
+                        if 'field:' + fld in at0:
+                            bases.append((g, bb, t, fld))
+        for (gg, gb, gt, gcs) in getters:
+            fld = OVERLAYS[gcs]
+            gkey = _key_args(prog, lt, gg, gt['args'][1])
+            for (bg, bbk, bt, bf) in bases:
+                if bf != fld:
+                    continue
+                bkey = _key_args(prog, lt, bg, bt['args'][1])
+                if not (gkey & bkey):
+                    continue
+                n += 1
+                bad = None
+                if bg is gg:
+                    c = cfg(bg)
+                    fwd = gb in c.reachable(c.succ[bbk]) or (gb == bbk)
+                    back = bbk in c.reachable(c.succ[gb])
+                    if fwd and not back:
+                        bad = 'the committed map is read first and the patch afterwards'
+                    elif fwd and back and c.dominates(bbk, gb):
+                        bad = 'inside the loop the committed map is read before the patch'
+                elif gg.parent and gg is not bg:
+                    # the patch lookup sits in a closure of the function that has read the committed map: is that closure
+                    # handed to a call that runs after the committed read?
+                    c = cfg(bg)
+                    after = c.reachable([bbk])
+                    for b2, t2 in bg.calls():
+                        if b2 in after and gg.p in (t2['f'].get('closures') or []) or \
+                                (b2 in after and any(gg.p in [x.p for x in prog.with_closures(prog.fns[cl])]
+                                                     for cl in (t2['f'].get('closures') or []) if cl in prog.fns)):
+                            bad = 'the patch is only asked by a closure handed to %s() after the committed map was read' \
+                                  % callee_short(t2).rsplit('::', 1)[-1]
+                            break
+                chk.decide(R7, chk.key(R7, root.short, fld.rsplit('::', 1)[-1]), bad is None,
+                           'the patch lookup comes first', '%s: %s (%s before %s): what the running look-ahead recorded '
+                           'for the key is shadowed by the committed entry' % (root.short, bad, fld, gcs), bg.loc(bbk))
+    chk.floor(R7, 'functions that look one key up in the patch and in the committed map', n, 5)
